@@ -203,6 +203,21 @@ def _run_once(case, tmp, workers, tag, models_in=None):
     for f in sorted(out.iterdir()):
         files[f.name] = _sha(f.read_bytes())
     res["files"] = files
+    if tag == "a":
+        # a user-supplied lower-is-better score, analysed twice in this process with the very same arrays: same files twice
+        import pandas as pd
+
+        tab = pd.read_parquet(path) if str(path).endswith(".parquet") else pd.read_csv(path, sep="\t")
+        user_scores = [(-tab["f0"].values).astype(float)]
+        twice = []
+        for rep in (1, 2):
+            o2 = Path(tmp) / f"user_{rep}"
+            o2.mkdir()
+            ps2 = mokapot.read_pin([path], max_workers=1)
+            mokapot.assign_confidence(ps2, max_workers=workers, scores=user_scores, descs=[False], eval_fdr=0.2, dest_dir=o2,
+                                      prefixes=[None], decoys=True, rng=1, peps_algorithm="verif_stub")
+            twice.append({f.name: _sha(f.read_bytes()) for f in sorted(o2.iterdir())})
+        res["user_score_twice"] = twice
     return res, models
 
 
@@ -267,6 +282,14 @@ def check(case):
     _diff(A, c1["repeat"], "repeat in the same process")
     _diff(A, c1["workers"], f"max_workers {case['w1']} vs {case['w2']}")
     _diff(A, c2["A"], f"fresh interpreters with PYTHONHASHSEED {case['h1']} vs {case['h2']}")
+    for c in (c1, c2):
+        t1, t2 = c["A"]["user_score_twice"]
+        for f in t1:
+            require(t1[f] == t2.get(f), "differs:repeat-same-arrays",
+                    f"assign_confidence called twice in one process with the same (lower-is-better) score arrays: {f} differs")
+    for f in c1["A"]["user_score_twice"][0]:
+        require(c1["A"]["user_score_twice"][0][f] == c2["A"]["user_score_twice"][0][f], "differs:file",
+                f"user-score analysis across interpreters: {f} differs")
     nperm = 0
     for p, r in c1["perms"].items():
         require(r["scores"] == A["scores"], "differs:model-order", f"feeding the returned models back in order {p} changes the scores")
